@@ -19,7 +19,7 @@ PROPS = {
         "bundles": ["core"],
         "fns": {"core": ["CQueue::add", "CQueue::fetch_next", "CQueue::cancel", "cqueue_impl::FutureEventSet::add", "cqueue_impl::FutureEventSet::fetch_next"]},
         "assumptions": [A_DLL, A_DUR, A_BOUNDS, A_NEW, "cancel: the handle was returned by add of this queue (a pending entry with the handle's id carries the handle's time)"],
-        "not_covered": ["memory safety of the linked list / allocator (C15)", "history-level statements follow from the per-operation abstract transitions a_add/a_fetch/a_cancel by induction; the induction itself is stated in DESIGN.md, not mechanised"],
+        "not_covered": ["memory safety of the linked list / allocator (C15)", "history-level statements are mechanised as Verus theorems over arbitrary histories of abstract steps (thm_fetch_order, thm_fetched_once, thm_cancelled_never_fetched, thm_fetched_was_added, thm_fetch_deterministic, thm_invariant); 'returned exactly once' is proved as 'at most once, and pending until returned or cancelled' (that a drain returns everything is Runtime::finish's contract, C11)"],
     },
     "C02": {
         "bundles": ["core"], "kani": ["simtime"],
